@@ -34,12 +34,14 @@ class Pipeline:
         self.sent = {}         # filter name -> list of process() outputs
         self.filters = {}
         self.errors = []
+        self.ended = {}        # filter name -> 'returned' | 'raised:<type>' once Filter.run() is over
+        self.lifecycle = {}    # filter name -> list of 'setup' / 'shutdown' calls
 
     def close(self):
         CLOCK.source = None
         FM.time = _real_time
 
-    def add(self, name, sources=None, outputs=None, behave=None, proc_time=0, start_at=0, source_frames=None, frame_interval=0, **cfgx):
+    def add(self, name, sources=None, outputs=None, behave=None, proc_time=0, start_at=0, source_frames=None, frame_interval=0, prop_exit='none', obey_exit='none', at_end=None, **cfgx):
         """behave(seq_dict, frames) -> process() result; source_frames = number of frames a source filter produces"""
         pl = self; net = self.net
         if name in self.log: self.log[name].append('RESTART'); self.times[name].append('RESTART')
@@ -47,10 +49,13 @@ class Pipeline:
         incarnation = [0]
         def body():
             class TF(FM.Filter):
-                def setup(self, config): self.n = 0
+                def setup(self, config): self.n = 0; pl.lifecycle.setdefault(name, []).append('setup')
+                def shutdown(self): pl.lifecycle.setdefault(name, []).append('shutdown')
                 def process(self, frames):
                     if source_frames is not None:
                         if self.n >= source_frames:
+                            if at_end == 'exit': self.exit('source exhausted')
+                            if at_end == 'error': raise RuntimeError('source failed')
                             net.current.sleep(POLL); return None
                         if frame_interval: net.current.sleep(frame_interval)
                         seq = self.n; self.n += 1
@@ -70,9 +75,12 @@ class Pipeline:
             stop = threading.Event()
             pl.filters[name] = stop
             try:
-                TF.run(cfg, prop_exit='none', obey_exit='none', stop_evt=stop, sig_stop=False)
+                TF.run(cfg, prop_exit=prop_exit, obey_exit=obey_exit, stop_evt=stop, sig_stop=False)
+                pl.ended[name] = 'returned'
             except (simnet.Killed, PathEnd, PathAbort, ViolationFound): raise
             except BaseException as ex:
+                if at_end == 'error' and isinstance(ex, RuntimeError) and str(ex) == 'source failed':
+                    pl.ended[name] = 'raised:RuntimeError'; return
                 if not net.done and not net.current.killed: pl.errors.append((name, repr(ex)))
                 raise
         t = net.spawn(name, body, start_at); self.threads[name] = t
